@@ -55,10 +55,14 @@ func c17Loop(c *core.Ctx) {
 		{absProgram{"wide-round", many, []absRule{{head: "b", body: []string{"a"}}, {head: "c", body: []string{"b"}}, {head: "d", body: []string{"c"}}}}, 3, true, false},
 		{absProgram{"fits-under-limit", []string{"n(0)"}, []absRule{{head: "n", body: []string{"n"}, succ: true, max: 4}, {head: "m", body: []string{"n"}}}}, 50, false, true},
 	}
+	for _, temporal := range []bool{false, true} {
 	for _, t := range cases {
-		e := newEngineFix(c, rC17Loop, t.p, t.limit)
+		e := newEngineFixMode(c, rC17Loop, t.p, t.limit, temporal)
 		if e == nil {
 			return
+		}
+		if temporal {
+			t.p.name += ":temporal"
 		}
 		final, isErr, returned, err := e.runEval(f, 300000)
 		if !runORD(c, rC17Loop, f.Name+":"+t.p.name, f, err) {
@@ -77,13 +81,39 @@ func c17Loop(c *core.Ctx) {
 				bad = fmt.Sprintf("returned without error but the store is not the least model: missing %v extra %v", miss, extra)
 			}
 		}
-		if isErr && returned {
+		// (over temporal facts the first pass writes straight into the temporal store, so one pass can run every
+		// rule of a chain; there the per-join limit inside the rule evaluator is what bounds a wide round, and
+		// only "an error, not a silent stop" is required of the loop)
+		if isErr && returned && !temporal {
 			created := len(final) - len(t.p.facts)
 			if int64(created) > 3*t.limit+int64(len(t.p.rules))*t.limit && bad == "" {
 				bad = fmt.Sprintf("%d facts were created before the limit of %d tripped", created, t.limit)
 			}
 		}
 		c.Check(bad == "", rC17Loop, f.Name+":"+t.p.name, f.Decl.Pos(), fmt.Sprintf("limit %d handled (error=%v) after %d rule evaluations", t.limit, isErr, e.clauses), bad)
+	}
+	}
+	// a temporal store that refuses further facts (its own interval limit): the refusal is an error of the
+	// evaluation, in the first pass and in a later round - never "nothing new was derived"
+	for _, after := range []int{0, 4, 7} {
+		p := absProgram{"refusing-temporal-store", []string{"n(0)"}, []absRule{{head: "n", body: []string{"n"}, succ: true, max: 6}, {head: "m", body: []string{"n"}}}}
+		e := newEngineFixMode(c, rC17Loop, p, 0, true)
+		if e == nil {
+			return
+		}
+		e.tRefuseAfter = after
+		final, isErr, returned, err := e.runEval(f, 300000)
+		label := fmt.Sprintf("%s:refusing-temporal-store-after-%d", f.Name, after)
+		if !runORD(c, rC17Loop, label, f, err) {
+			continue
+		}
+		bad := ""
+		if !returned {
+			bad = "evaluation did not return"
+		} else if !isErr {
+			bad = fmt.Sprintf("the temporal store accepts %d derived facts and then refuses every further one with its interval-limit error; evaluation returned nil with %d of %d facts: a silent partial result", after, len(final), len(p.leastModel(1000)))
+		}
+		c.Check(bad == "", rC17Loop, label, f.Decl.Pos(), "the store's refusal is returned as an error", bad)
 	}
 }
 
